@@ -29,6 +29,12 @@ def cargo_test(filters, seed, extra_env=None, timeout=3000):
         env.update(extra_env)
     cmd = ["cargo", "test", "-p", "saito-core", "--lib", "--offline", "--"] + list(filters) + ["--test-threads", "4"]
     t0 = time.time()
+    # the crate's tests keep blocks and wallets in ./data under the crate directory: two test processes (checks of two
+    # properties running side by side) would trample each other's files — one at a time
+    import fcntl
+    os.makedirs(os.path.join(ROOT, "build"), exist_ok=True)
+    lock = open(os.path.join(ROOT, "build", "twin.lock"), "w")
+    fcntl.flock(lock, fcntl.LOCK_EX)
     try:
         p = subprocess.run(cmd, cwd=REPO, env=env, stdout=subprocess.PIPE, stderr=subprocess.STDOUT, text=True, timeout=timeout)
         out = p.stdout
@@ -36,6 +42,9 @@ def cargo_test(filters, seed, extra_env=None, timeout=3000):
     except subprocess.TimeoutExpired as e:
         out = (e.stdout or "") + "\nTIMEOUT"
         code = -1
+    finally:
+        fcntl.flock(lock, fcntl.LOCK_UN)
+        lock.close()
     return {"cmd": " ".join(cmd), "exit": code, "output": out, "wall": time.time() - t0}
 
 
